@@ -131,7 +131,9 @@ func runC01(t *testing.T, sci interface{}, keepLog bool) *hx.Outcome {
 				s.Fail("held-tokens-mismatch", "key %d: container says %d tokens held, callers that acquired and have not released hold %d (a failed acquire kept tokens, or a release lost them)", k, held, ks.held)
 				return
 			}
-			if nw != len(blocked) {
+			// every blocked caller must be queued; an implementation may keep cancelled waiters around for a while (lazy removal),
+			// so more queued than blocked is not judged here (a leftover shows up as residue once the key is idle)
+			if nw < len(blocked) {
 				s.Fail("waiter-count-mismatch", "key %d: container queues %d waiter(s) but %d caller(s) are blocked in Acquire", k, nw, len(blocked))
 				return
 			}
